@@ -152,6 +152,13 @@ pub struct Skew {
     /// id skew: aggregator j processes its share as `ids[j]`
     #[serde(default)]
     pub ids: Vec<u8>,
+    /// added to the identifier handed to the library (e.g. 256: identifiers that only differ above
+    /// the low byte must not be taken for each other)
+    #[serde(default)]
+    pub id_offset: u64,
+    /// object-level skew: decode the share under the TRUE identifier, process it under the skewed one
+    #[serde(default)]
+    pub object_level: bool,
 }
 
 #[derive(Clone, Debug, Serialize, Deserialize, PartialEq)]
@@ -470,11 +477,18 @@ impl<'p, 'c, 'cc, V: SimVdaf<VK>, A: Adapter<V>, const VK: usize> World<'p, 'c, 
         if let Some(s) = &self.plan.skew {
             if s.what == "id" {
                 if let Some(x) = s.ids.get(j) {
-                    return *x as usize;
+                    return (*x as u64 + s.id_offset) as usize;
                 }
             }
         }
         j
+    }
+    /// identifier used for DECODING the input share (object-level skew keeps the true one)
+    fn decode_id(&self, j: usize) -> usize {
+        match &self.plan.skew {
+            Some(s) if s.what == "id" && s.object_level => j,
+            _ => self.node_id(j),
+        }
     }
 
     fn log_env(&mut self, tag: &str, e: &Env) {
@@ -665,7 +679,8 @@ impl<'p, 'c, 'cc, V: SimVdaf<VK>, A: Adapter<V>, const VK: usize> World<'p, 'c, 
         let public = mon_decode(self.ctx, "PublicShare", &public_b, self.pimplied, |b| V::PublicShare::get_decoded_with_param(vdaf, b), |v| v.get_encoded(), |v| v.encoded_len()).ok_or("public share undecodable")?;
         // size implied by the instance (decoding parameter), measured on the honest report
         let psize = self.pimplied;
-        let input = mon_decode(self.ctx, "InputShare", &input_b, psize, |b| V::InputShare::get_decoded_with_param(&(vdaf, id), b), |v| v.get_encoded(), |v| v.encoded_len()).ok_or("input share undecodable")?;
+        let did = self.decode_id(j);
+        let input = mon_decode(self.ctx, "InputShare", &input_b, psize, |b| V::InputShare::get_decoded_with_param(&(vdaf, did), b), |v| v.get_encoded(), |v| v.encoded_len()).ok_or("input share undecodable")?;
         let ctxb = self.node_ctx(j);
         let key = self.node_vk(j);
         let nonce = self.node_nonce(j, rep);
